@@ -1,6 +1,7 @@
 """C15: counters and prefix limits match the RIB.  Same model and harness as C02;
 the oracle recounts from the implementation's own Table::destinations output."""
 from gen import ribcommon as R
+from gen import ribenum as E
 from gen.c02 import Prop as C02
 
 U64 = 1 << 64
@@ -10,7 +11,7 @@ class Prop(C02):
     props_file = 'Props/C15.v'
     required_theorems = ['no_empty_destination', 'stats_eq_recount', 'no_counter_underflow', 'table_totals_eq_recount',
                          'limit_counter_refuted', 'limit_respected_outside_known', 'limit_rejection_installs_nothing',
-                         'remove_finds_stats']
+                         'remove_finds_stats', 'stats_eq_adjin_view', 'known_class_narrowed', 'limit_signalled_only_when_full']
     extra_targets = ['Model/Rib.vo']
     correspondence_name = 'Model/Rib.v step (route_stats, limit counters, Table::state) vs rustybgp_table::Table (harness/hx-rib, debug and release)'
     trusted_base = C02.trusted_base + [
@@ -21,11 +22,14 @@ class Prop(C02):
     assumptions = ['a Source object (allocation token) always denotes the same remote address', 'configured maxima are u32 values']
     rule = ('histories with per-session prefix limits 0..5 over 3 prefixes x 3 path ids, 3 peers sharing prefixes, filtered/unfiltered transitions, '
             'peer drop, stale/LLGR/NO_LLGR purges, limit-exceeded insertions and session restarts; non-trivial = some counter or statistic is > 0 '
-            'at some step and some removal happened; distinct = distinct sequence of (statistics, counters, totals)')
+            'at some step and some removal happened; distinct = distinct sequence of (statistics, counters, totals)'
+            ' Enumerated on every run (gen/ribenum.py, tags enum:*): every operation of a 90-operation alphabet on each of 21 pre-states; two-candidate duels deciding at exactly one step of the decision order with the loser better at every later step, single-step ECMP exclusions, complete ties, EVPN MAC-mobility forms in every extended-community layout, LLGR_STALE / NO_LLGR in every community position; AS_PATH hop counts on both sides of 0/1/63/64/65/127/128/255/256/510 in every segment shape including unknown segment types and hundreds of one-AS segments; 67 (thorough: 131) prefixes crossing the id bitmap words with ids freed and re-used; prefix limits 0/1/2/u32::MAX; u32 ends of path ids, LOCAL_PREF, router ids, CLUSTER_LIST lengths; all role pairs.')
+
+    enum_which = 'c15'
 
     def gen_cases(self, rng, tier):
         n = 700 if tier == 'quick' else 7000
-        cases = []
+        cases = E.all_enumerated('c15', tier) + (E.state_x_op(limits=2) + E.state_x_op(limits=3, pairs=True) if tier != 'quick' else [])
         for k in range(n):
             w = dict(ins=10, rem=4, drop=1, dropk=3, restale=2, nhv=1, reconnect=(1 if k % 2 else 0), deferral=0)
             cases.append(R.gen_history(rng, rng.randint(5, 40), limits=(k % 5 != 4), weights=w))
@@ -62,14 +66,22 @@ class Prop(C02):
                 lim_of[o[8][1]] = o[8][0]
             if o[0] == 'drop' and o[3] is not None:
                 addr_of_tok.setdefault(o[3], o[2])
-        signalled = set()
         ended = set()            # sessions whose peer was dropped (the counter dies with the session)
-        mixed = set()            # peers that had paths of two sessions (Source objects) at once
+        # Known finding C15-session-counter, as narrow as the defect: a session c is TAINTED once an
+        # operation acting for a session (insert, withdrawal, purge carrying its counter) touches a
+        # destination that holds a path of the same peer belonging to ANOTHER session, and c is the
+        # acting session or the owner of such a path.  Only failures of tainted sessions' counters
+        # are attributed to the finding; everything else is a violation, and a known failure never
+        # hides a later one (the scan goes on; the first non-attributed failure wins).
+        tainted = set()
+        known_fail = None
+        diverged = set()
+        def foreign(prev_dest_entries, addr, tok):
+            return set(e[1] for e in prev_dest_entries if addr_of_tok.get(e[1]) == addr and e[1] != tok)
         for k, (o, step) in enumerate(zip(c['ops'], obs)):
             chs, lim, st = step
-            loc, dests, totals, stats, ctrs, bad, rsl = st
-            if lim and o[0] == 'ins' and o[8] is not None:
-                signalled.add(o[8][1])
+            loc, dests, totals, stats, ctrs, bad = st[:6]
+            prev = {d[0]: d[1] for d in obs[k - 1][2][1]} if k > 0 else {}
             if o[0] == 'drop' and o[1] == 0:
                 ended |= set(t for t, a in addr_of_tok.items() if a == o[2])
             # a peer has one live session: once a newer Source of the peer acts, the
@@ -78,14 +90,19 @@ class Prop(C02):
             if cur is not None:
                 a_cur = addr_of_tok.get(cur, cur % 10)
                 ended |= set(t for t, a in addr_of_tok.items() if a == a_cur and t < cur)
-            if o[0] in ('ins', 'rem') and k > 0:
-                prev = obs[k - 1][2][1]
-                if any(addr_of_tok.get(e[1]) == o[1][1] and e[1] != o[1][0] for d in prev for e in d[1]):
-                    mixed.add(o[1][1])
-            if o[0] == 'drop' and o[3] is not None and k > 0:
-                prev = obs[k - 1][2][1]
-                if any(addr_of_tok.get(e[1]) == o[2] and e[1] != o[3] for d in prev for e in d[1]):
-                    mixed.add(o[2])
+            if o[0] == 'ins' and not lim:
+                f = foreign(prev.get(o[2], []), o[1][1], o[1][0])
+                if f: tainted |= f | {o[1][0]}
+            if o[0] == 'rem' and any(addr_of_tok.get(e[1]) == o[1][1] and e[0] == o[3] for e in prev.get(o[2], [])):
+                f = foreign(prev.get(o[2], []), o[1][1], o[1][0])
+                if f: tainted |= f | {o[1][0]}
+            if o[0] == 'drop' and o[1] != 0 and o[3] is not None:
+                now = {d[0]: d[1] for d in dests}
+                f = set()
+                for net, es in prev.items():
+                    if len(now.get(net, [])) < len(es):        # the purge removed something here
+                        f |= foreign(es, o[2], o[3])
+                if f: tainted |= f | {o[3]}
             # table totals
             nd = len(dests); npaths = sum(len(d[1]) for d in dests)
             nacc = sum(1 for d in dests for e in d[1] if not e[3])
@@ -101,20 +118,34 @@ class Prop(C02):
                 got = s[1:] if len(s) == 3 else [0, 0]
                 if got != [rcv, acc]:
                     return 'step %d: peer %d statistics (received, accepted) = %s, recount %s' % (k, a, got, [rcv, acc])
+            # a rejected insert installs nothing
+            if lim and k > 0 and sorted(map(repr, dests)) != sorted(map(repr, obs[k - 1][2][1])):
+                return 'step %d: an insert answered PrefixLimitExceeded changed the RIB' % k
+            if lim and o[0] == 'ins' and o[8] is not None and o[8][1] not in tainted and o[8][1] not in ended:
+                held = sum(1 for es in prev.values() if any(e[1] == o[8][1] for e in es))
+                if held < o[8][0]:
+                    return 'step %d: session %d holds %d prefixes, limit %d, yet a new prefix was rejected' % (k, o[8][1], held, o[8][0])
             # per-session limit counters
             for cid, v in zip(c['ctrs'], ctrs):
-                if cid not in lim_of or cid in ended:
+                if cid not in lim_of or cid in ended or cid in diverged:
                     continue
-                a = addr_of_tok.get(cid)
-                tag = ' [peer had paths of two sessions]' if a in mixed else ''
-                if v >= U64 // 2:
-                    return 'step %d: prefix-limit counter of session %d underflowed (%d)%s' % (k, cid, v, tag)
+                why = None
                 mine = sum(1 for d in dests if any(e[1] == cid for e in d[1]))
-                if mine > lim_of[cid] and cid not in signalled:
-                    return 'step %d: session %d holds %d prefixes, limit %d, never signalled%s' % (k, cid, mine, lim_of[cid], tag)
-                if v != mine:
-                    return 'step %d: prefix-limit counter of session %d is %d, recount %d%s' % (k, cid, v, mine, tag)
-        return None
+                if v >= U64 // 2:
+                    why = 'step %d: prefix-limit counter of session %d underflowed (%d)' % (k, cid, v)
+                elif mine > lim_of[cid]:
+                    why = 'step %d: session %d holds %d prefixes, limit %d' % (k, cid, mine, lim_of[cid])
+                elif v != mine:
+                    why = 'step %d: prefix-limit counter of session %d is %d, recount %d' % (k, cid, v, mine)
+                if why is None:
+                    continue
+                if cid in tainted:
+                    diverged.add(cid)
+                    if known_fail is None:
+                        known_fail = why + ' [an operation of one session of the peer touched a path of another]'
+                else:
+                    return why
+        return known_fail
 
     @staticmethod
     def _restarted(c, addr):
@@ -123,9 +154,8 @@ class Prop(C02):
 
     def in_known_class(self, kf, c, obs, why):
         if kf['id'] == 'C15-session-counter':
-            # the class: a session's counter/limit fails for a peer that held paths of two
-            # sessions (a graceful-restart reconnect) at some earlier point of the history
-            return why.endswith('[peer had paths of two sessions]')
+            # the class: the counter of a session that was party to a cross-session touch (see oracle)
+            return why.endswith('[an operation of one session of the peer touched a path of another]')
         return False
 
     def nontrivial_key(self, c, obs):
